@@ -14,7 +14,7 @@ from symx.docenv import parse, text_of
 from autobean_refactor import models
 
 D = decimal.Decimal
-SHAPES = ['2', '3+5', '7 * 11', '-13', '(17+19)', '23-29*31', '37/2 - 41', '-(43+47)', '+ 53', '59 -  -61', '(67)', '1.50', '2*(3+5)', '7-11-13', '64/4/2']
+SHAPES = ['2', '3+5', '7 * 11', '-13', '(17+19)', '23-29*31', '37/2 - 41', '-(43+47)', '+ 53', '59 -  -61', '(67)', '1.50', '2*(3+5)', '7-11-13', '64/4/2', '1/3*3', '10/6/7*2']
 SCALARS = [4, -4, D('1.5'), D('-2.5'), 0]
 BIN = ['+', '-', '*', '/']
 
